@@ -27,6 +27,8 @@ func init() {
 			{"C09.R9", "q", "resynchronisation probes every block up to the file end", c09r9},
 			{"C16.R4", "q", "shared: CRC coverage", c16r4},
 			{"C16.R4b", "q", "shared: CRC skips nothing but empty input", c16r4b},
+			{"C04.L5", "q", "shared: flush writes the file before detaching and freeing", c04l5},
+			{"C10.R3", "q", "shared: a failed decompression leaves the payload as it was", c10r3},
 		},
 	})
 }
@@ -573,6 +575,10 @@ func c09r6(c *Ctx) {
 			}
 		}
 		n++
+		if strings.HasPrefix(why, "short read") && c.Prop != "C09" {
+			// C06/C07 demand a refusal to start on a torn tail: only C09 states that the scan resynchronises
+			continue
+		}
 		c.check(isNV, R, f.Key+": "+why+" ⇒ nextValid", c.pos(rs), "resynchronises", "after a header was read, the failure `"+why+"` ends the scan with an error instead of resynchronising on the next block: one damaged size field hides every intact record behind it (and buildHintFromData turns it into a refusal to start)")
 	}
 	if n < 3 {
